@@ -77,11 +77,32 @@ def generate(prop, rng, index, tier):
             present = [v for v, m in zip(grids[g]["values"], grids[g]["mask"]) if not m]
             rd["missing"] = rng.choice(present) if present and rng.random() < 0.7 else -12345
         reads.append(rd)
+    # a value that is close to, but not equal to, the missing value must stay a value
+    for rd in reads:
+        g = grids[rd["grid"]]
+        if rd["missing"] is not None and g["dtype"] == "f8" and rng.random() < 0.5:
+            free = [i for i, m in enumerate(g["mask"]) if not m]
+            if free:
+                mv = float(rd["missing"])
+                g["values"][rng.choice(free)] = rng.choice([mv + 4e-9, mv * (1 + 2e-6) if mv else 1e-9, mv - 3e-8])
     if rng.random() < 0.1:
         reads.append({"grid": 0, "dtype": None, "missing": None, "nosuch": True})
+    # a later write of some of the same results on their own, read back as well
+    second = None
+    if ngrids >= 2 and rng.random() < 0.4:
+        k = rng.randint(1, ngrids - 1)
+        second = {"grids": rng.sample(range(ngrids), k), "reads": [{"grid_pos": rng.randrange(k), "dtype": rng.choice([None, "Float"]),
+                                                                    "missing": None}]}
+    # reads of the template's own variable (stored with a negative fill value and some missing cells)
+    treads = []
+    if rng.random() < 0.35:
+        treads.append({"dtype": rng.choice(["Positive Float", "Positive Integer", None, "Integer"])})
     order = list(range(ngrids))
     rng.shuffle(order)
-    return {"engine": ENGINE, "prop": "C18", "template": template, "grids": grids, "write_order": order, "reads": reads}
+    template["var"]["missing_cells"] = sorted(rng.sample(range(ncell), rng.randint(0, max(0, ncell // 3)))) \
+        if template["var"]["fill"] is not None else []
+    return {"engine": ENGINE, "prop": "C18", "template": template, "grids": grids, "write_order": order, "reads": reads,
+            "second_write": second, "template_reads": treads}
 
 
 # ------------------------------------------------------------------------------------------------
@@ -112,7 +133,13 @@ def _make_template(path, t):
         kw = {"fill_value": var["fill"]} if var["fill"] is not None else {}
         v = ds.createVariable(var["name"], var["dtype"], tuple(d for d, _ in t["dims"]), **kw)
         shape = tuple(n for _, n in t["dims"])
-        v[:] = numpy.arange(int(numpy.prod(shape))).reshape(shape).astype(var["dtype"])
+        base = numpy.ma.array(numpy.arange(int(numpy.prod(shape))).reshape(shape).astype(var["dtype"]))
+        miss = [i for i in (var.get("missing_cells") or []) if i < int(numpy.prod(shape))]
+        if miss:
+            m = numpy.zeros(int(numpy.prod(shape)), dtype=bool)
+            m[miss] = True
+            base = numpy.ma.array(base.data, mask=m.reshape(shape))
+        v[:] = base
         if t["crs"]:
             v.setncattr("grid_mapping", "crs")
             v.setncattr("esri_pe_string", 'GEOGCS["GCS_WGS_1984"]')
@@ -224,6 +251,68 @@ def execute(sc):
                         got, err = None, exc
                     log.emit("op-end", op="READ", ok=err is None, exc=type(err).__name__ if err else None)
                     _judge(res, g, rd, got, err, union, shape, numpy, MPilotError)
+                # ---- second write: some of the same results on their own --------------------------------------------
+                sw = sc.get("second_write")
+                if sw:
+                    sel = [sc["grids"][i % len(sc["grids"])] for i in sw["grids"]]
+                    names2 = [g["name"] for g in sel]
+                    program.add_command(program.find_command_class("EEMSWrite"), "__write2__",
+                                        {"OutFileName": "out2.nc", "OutFieldNames": names2, "DimensionFileName": tmpl,
+                                         "DimensionFieldName": t["var"]["name"]})
+                    log.emit("op-begin", op="WRITE2", names=names2)
+                    try:
+                        program.commands["__write2__"].run()
+                        err = None
+                    except SimAbort:
+                        raise
+                    except Exception as exc:  # noqa
+                        err = exc
+                    if err is not None:
+                        res.violate("C18.write", "C18.write second-write-raised %s" % type(err).__name__,
+                                    "writing %r after %r raised %r" % (names2, names, err))
+                    else:
+                        union2 = [False] * int(numpy.prod(shape))
+                        for g in sel:
+                            union2 = [a or b for a, b in zip(union2, g["mask"])]
+                        res.probe("some of the results written again on their own")
+                        for k, rd in enumerate(sw["reads"]):
+                            g = sel[rd["grid_pos"] % len(sel)]
+                            args = {"InFileName": "out2.nc", "InFieldName": g["name"]}
+                            if rd.get("dtype"):
+                                args["DataType"] = rd["dtype"]
+                            rname = "S%d" % k
+                            program.add_command(program.find_command_class("EEMSRead"), rname, args)
+                            try:
+                                got, err = program.commands[rname].result, None
+                            except SimAbort:
+                                raise
+                            except Exception as exc:  # noqa
+                                got, err = None, exc
+                            log.emit("read2", var=g["name"], ok=err is None)
+                            _judge(res, g, {"dtype": rd.get("dtype"), "missing": None}, got, err, union2, shape, numpy,
+                                   MPilotError, tag="second-write ")
+                # ---- reads of the template's own variable (negative fill value, missing cells) ---------------------------
+                for k, rd in enumerate(sc.get("template_reads") or []):
+                    ncell = int(numpy.prod(shape))
+                    miss = set(i for i in (t["var"].get("missing_cells") or []) if i < ncell)
+                    g = {"name": t["var"]["name"], "values": [float(i) for i in range(ncell)]}
+                    tmask = [i in miss for i in range(ncell)]
+                    args = {"InFileName": tmpl, "InFieldName": t["var"]["name"]}
+                    if rd.get("dtype"):
+                        args["DataType"] = rd["dtype"]
+                    rname = "T%d" % k
+                    program.add_command(program.find_command_class("EEMSRead"), rname, args)
+                    try:
+                        got, err = program.commands[rname].result, None
+                    except SimAbort:
+                        raise
+                    except Exception as exc:  # noqa
+                        got, err = None, exc
+                    log.emit("read-template", dtype=rd.get("dtype"), ok=err is None)
+                    _judge(res, g, {"dtype": rd.get("dtype"), "missing": None}, got, err, tmask, shape, numpy, MPilotError,
+                           tag="template-variable ")
+                    if miss and t["var"]["fill"] is not None and t["var"]["fill"] < 0:
+                        res.probe("variable with missing cells stored under a negative fill value read")
             finally:
                 mon.uninstall()
     finally:
@@ -231,9 +320,9 @@ def execute(sc):
     return _finish(sc, res)
 
 
-def _judge(res, g, rd, got, err, union, shape, numpy, MPilotError):
+def _judge(res, g, rd, got, err, union, shape, numpy, MPilotError, tag=""):
     dt = rd.get("dtype")
-    label = "dtype=%s missing=%s" % (dt or "default", "given" if rd.get("missing") is not None else "none")
+    label = "%sdtype=%s missing=%s" % (tag, dt or "default", "given" if rd.get("missing") is not None else "none")
     if rd.get("nosuch"):
         if err is None or type(err).__name__ != "NoSuchVariable":
             res.violate("C18.read", "C18.read missing-variable-not-reported",
@@ -343,6 +432,10 @@ def shrink_candidates(sc):
             c["write_order"] = [j - (1 if j > i else 0) for j in c["write_order"] if j != i]
             for rd in c["reads"]:
                 rd["grid"] = (rd["grid"] % ng) - (1 if (rd["grid"] % ng) > i else 0)
+            if c.get("second_write"):
+                c["second_write"]["grids"] = [j - (1 if j > i else 0) for j in c["second_write"]["grids"] if j != i]
+                if not c["second_write"]["grids"]:
+                    c["second_write"] = None
             yield c
     # smaller shapes: drop the last axis to length 1
     dims = sc["template"]["dims"]
@@ -381,6 +474,14 @@ def shrink_candidates(sc):
     if sc["template"]["crs"]:
         c = clone()
         c["template"]["crs"] = False
+        yield c
+    if sc.get("second_write"):
+        c = clone()
+        c["second_write"] = None
+        yield c
+    if sc.get("template_reads"):
+        c = clone()
+        c["template_reads"] = []
         yield c
     if sc["write_order"] != sorted(sc["write_order"]):
         c = clone()
